@@ -38,7 +38,7 @@ RULE = (
     "BaseExceptionGroup([ClientClosedError, ValueError])} x hook position in {on_connection coroutine / generator before its first "
     "yield / generator after its yield, handle before first yield / after request 1 / while handling a thrown parse error / in "
     "finally after a normal return / in finally while being closed on disconnect, on_disconnection} for TCP (UDP: the four handle "
-    "positions) + connection set-up faults {getpeername ENOTCONN after accept, set-up of the accepted socket failing with ENOTCONN / EINVAL inside the listener task, connection reset right after accept (x 3 positions), a malformed frame pipelined behind a valid request in one segment (handler never fails)} "
+    "positions) + connection set-up faults {getpeername ENOTCONN after accept, set-up of the accepted socket failing with ENOTCONN / EINVAL inside the listener task, connection reset right after accept (x 3 positions), a malformed frame pipelined behind a valid request in one segment (handler never fails), a handler yielding NaN as its timeout} "
     "x 1-2 concurrent healthy clients x both TCP receive paths; schedules: the peer acting next and the loop-iteration boundary of "
     "every client event are explorer choices (round-robin default, bound 1 quick / 2 thorough deviations, 1 for TCP with 2 healthy clients); distinct_nontrivial = "
     "distinct (scenario, hook log) pairs of executions with at least one non-default choice"
@@ -176,7 +176,9 @@ class Common:
                 self.fault_armed = False
                 raise self.exc()
             try:
-                req = yield
+                # fault 'bad-timeout': the hook yields a value no timeout can be built from (what happens to this client is its own
+                # business; the server and the other clients must not notice)
+                req = yield (float("nan") if self.cfg.get("fault") == "bad-timeout" else None)
             except (StreamProtocolParseError, DatagramProtocolParseError):
                 rec.add("F", "err")
                 if armed and pos == "h-thrown":
@@ -286,6 +288,8 @@ class UDPHandler(AsyncDatagramRequestHandler):
 def faulty_frames(cfg: dict) -> list[bytes]:
     pos = cfg["pos"]
     if cfg.get("fault") in ("enotconn", "connect-enotconn", "connect-einval"):
+        return [b"f1\n"]
+    if cfg.get("fault") == "bad-timeout":
         return [b"f1\n"]
     if cfg.get("fault") == "pipelined-bad-frame":
         # one segment: a valid request, a malformed frame right behind it (parsed from the leftover buffer), another valid request
@@ -610,7 +614,7 @@ def scenarios(tier: str) -> list[dict]:
                     if tier == "quick" and proto == "buf" and nh == 2:
                         continue
                     out.append({"kind": "tcp", "proto": proto, "healthy": nh, "pos": pos, "exc": exc, "fault": None, "bound": bound})
-            for fault in ("enotconn", "connect-enotconn", "connect-einval", "pipelined-bad-frame"):
+            for fault in ("enotconn", "connect-enotconn", "connect-einval", "pipelined-bad-frame", "bad-timeout"):
                 out.append({"kind": "tcp", "proto": proto, "healthy": nh, "pos": "none", "exc": "ValueError", "fault": fault, "bound": bound})
             for pos in ("oc-coro", "disc", "h-finally-exit"):
                 for exc in EXC:
